@@ -85,4 +85,80 @@ theorem offsets_of_parsed {bs p} (hp : parsePackage bs = .ok p) :
   obtain ⟨_, _, _, h4, h5, _⟩ := offsets_exact (parsed_wf hp) p.content
   exact ⟨h5, h4⟩
 
+/-! ### `Header::clear` / `Header::new_empty` (header.rs): the modified-in-memory values are instances -/
+
+/-- `new_empty()` is a well-formed header -/
+theorem empty_wf : HeaderWF Header.empty :=
+  ⟨rfl, rfl, by decide, by decide, fun _ h => (nomatch h), fun _ h => (nomatch h)⟩
+
+/-- `clear()` of ANY header value (well formed or not) is the `new_empty()` value -/
+theorem clear_eq_empty (h : Header) : h.clear = Header.empty := rfl
+
+/-- an empty header is written as its 16-byte intro alone; the signature variant needs no padding -/
+theorem write_empty : writeHeader Header.empty = writeIntro 0 0
+    ∧ writeSignature Header.empty = writeIntro 0 0
+    ∧ (writeIntro 0 0).length = 16 := by
+  refine ⟨rfl, rfl, rfl⟩
+
+/-- those 16 bytes, followed by anything, parse back to the empty header and leave the rest unread -/
+theorem parse_write_empty (rest : Bytes) :
+    parseSignature (writeSignature Header.empty ++ rest) = .ok (Header.empty, rest)
+    ∧ parseHeader (writeHeader Header.empty ++ rest) = .ok (Header.empty, rest) := by
+  constructor
+  · have := parseSignature_write empty_wf (res := [0, 0, 0, 0]) (pad := []) rfl rfl rest
+    rwa [List.append_nil, ← writeHeader_eq] at this
+  · rw [writeHeader_eq]; exact parseHeader_write empty_wf rfl rest
+
+/-- replacing the signature header by `new_empty()` keeps the metadata well formed -/
+theorem new_empty_wf {m : Metadata} (wf : MetadataWF m) : MetadataWF { m with signature := Header.empty } :=
+  ⟨wf.lead, empty_wf, wf.hdr⟩
+
+/-- **C16 for a package whose signature header is `new_empty()`** (instance of `offsets_exact`): the offsets are
+0, 96, 112, 112 + size of the main header, and they are the byte boundaries of what is written. -/
+theorem offsets_new_empty {m : Metadata} (wf : MetadataWF m) (c : Bytes) :
+    let m' : Metadata := { m with signature := Header.empty }
+    let w := writePackage ⟨m', c⟩
+    offsets m' = ⟨0, 96, 112, 112 + m.header.size⟩
+    ∧ w = writeLead m.lead ++ writeIntro 0 0 ++ writeHeader m.header ++ c
+    ∧ w.drop 96 = writeIntro 0 0 ++ writeHeader m.header ++ c
+    ∧ w.drop 112 = writeHeader m.header ++ c
+    ∧ w.drop (112 + m.header.size) = c
+    ∧ w.length - (112 + m.header.size) = c.length := by
+  intro m' w
+  have ho : offsets m' = ⟨0, 96, 112, 112 + m.header.size⟩ := by
+    simp only [m', offsets, Header.size, Header.empty, lds, ihs, ies, sigPad]
+  obtain ⟨_, _, h3, h4, h5, h6, _⟩ := offsets_exact (new_empty_wf wf) c
+  rw [ho] at h3 h4 h5 h6
+  simp only [write_empty.2.1] at h3
+  refine ⟨ho, ?_, h3, h4, h5, h6⟩
+  show writePackage ⟨m', c⟩ = _
+  simp only [writePackage, writeMetadata, m', write_empty.2.1]
+
+/-- the same for `p.metadata.signature.clear()`, whatever the signature header was before -/
+theorem offsets_cleared {m : Metadata} (wf : MetadataWF m) (c : Bytes) :
+    let m' : Metadata := { m with signature := m.signature.clear }
+    let w := writePackage ⟨m', c⟩
+    MetadataWF m'
+    ∧ offsets m' = ⟨0, 96, 112, 112 + m.header.size⟩
+    ∧ w = writeLead m.lead ++ writeIntro 0 0 ++ writeHeader m.header ++ c
+    ∧ w.drop 96 = writeIntro 0 0 ++ writeHeader m.header ++ c
+    ∧ w.drop 112 = writeHeader m.header ++ c
+    ∧ w.drop (112 + m.header.size) = c
+    ∧ w.length - (112 + m.header.size) = c.length := by
+  simp only [clear_eq_empty]
+  exact ⟨new_empty_wf wf, offsets_new_empty wf c⟩
+
+/-! ### non-vacuity for the cleared / `new_empty` instances: a lead, a 1-entry signature header with a 5-byte store
+(3 padding bytes), a 1-entry main header, 2 payload bytes -/
+def sampleMd : Metadata :=
+  ⟨⟨3, 0, 0, 1, List.replicate 66 0, 1, 5, List.replicate 16 0⟩,
+   ⟨1, 5, [⟨1000, .bin [104, 101, 108, 108, 111], 0, 5⟩], [104, 101, 108, 108, 111]⟩,
+   ⟨1, 4, [⟨1001, .int32 [7], 0, 1⟩], [0, 0, 0, 7]⟩⟩
+example : MetadataWF sampleMd := parsed_wf (bs := writePackage ⟨sampleMd, [9, 9]⟩) (p := ⟨sampleMd, [9, 9]⟩) (by decide +kernel)
+example : sampleMd.signature.clear = Header.empty ∧ sampleMd.signature ≠ Header.empty := by decide
+example : writeSignature Header.empty = [142, 173, 232, 1, 0, 0, 0, 0, 0, 0, 0, 0, 0, 0, 0, 0] := by decide
+example : offsets sampleMd = ⟨0, 96, 136, 172⟩ := by decide
+example : offsets { sampleMd with signature := sampleMd.signature.clear } = ⟨0, 96, 112, 148⟩ := by decide
+example : (writePackage ⟨{ sampleMd with signature := sampleMd.signature.clear }, [9, 9]⟩).drop 148 = [9, 9] := by decide +kernel
+
 end RpmVerif.C16
